@@ -8,6 +8,7 @@ callback and checks each step.
 """
 
 import copy
+import functools
 import hashlib
 import itertools
 from fractions import Fraction
@@ -34,6 +35,17 @@ EPOCH = 1000000000.0
 
 class _Raise(Exception):
     pass
+
+
+class _Callable(object):
+    """a callable object (no __name__ attribute)"""
+
+    def __init__(self, run, fid, template):
+        self.args = (run, fid, template)
+
+    def __call__(self):
+        run, fid, template = self.args
+        run.called(fid, template)
 
 
 # ------------------------------------------------------------------ harness side
@@ -144,7 +156,14 @@ class Run:
         self.nfid += 1
         fid = self.nfid
         self.ev('defer', fid, template)
-        core.deferred(self.called, fid, template)
+        # the queue accepts any callable: bound methods, partials (no __name__) and callable objects
+        flavour = fid % 3
+        if flavour == 0:
+            core.deferred(self.called, fid, template)
+        elif flavour == 1:
+            core.deferred(functools.partial(self.called, fid), template)
+        else:
+            core.deferred(_Callable(self, fid, template))
 
     def called(self, fid, template):
         self.ev('call', fid)
